@@ -56,7 +56,8 @@ _QCACHE: dict = {}
 
 def _has_quantifier(e) -> bool:
     k = e.get_id()
-    r = _QCACHE.get(k)
+    hit = _QCACHE.get(k)
+    r = hit[1] if hit is not None and hit[0].eq(e) else None     # (AST ids are reused once a term is freed)
     if r is None:
         r = False
         seen = set()
@@ -71,7 +72,7 @@ def _has_quantifier(e) -> bool:
                 r = True
                 break
             stack.extend(x.children())
-        _QCACHE[k] = r
+        _QCACHE[k] = (e, r)
     return r
 
 
